@@ -14,8 +14,8 @@ NSHARDS = {"quick": 32, "thorough": 64}
 BUDGET_S = {"quick": 200, "thorough": 1800}
 EXTRA_BUILDS = {"thorough": ["rel"]}  # used by the generic release-build stage in core
 MIN_HITS = {
-    'quick': {"der_rt": 1312, "last_byte_is_flag": 552, "last_byte_not_flag": 760, "der_plus_flag": 15680, "compact_rt": 8960, "recover": 192, "der_bad": 10224, "compact_bad": 912},
-    'thorough': {"der_rt": 103680, "last_byte_is_flag": 40433, "der_plus_flag": 1128960, "compact_rt": 645120, "recover": 23040, "der_bad": 168960, "compact_bad": 145920},
+    'quick': {"der_rt": 1312, "last_byte_is_flag": 553, "last_byte_not_flag": 758, "der_plus_flag": 15680, "compact_rt": 8960, "recover": 192, "der_bad": 11232, "compact_bad": 912},
+    'thorough': {"der_rt": 103680, "last_byte_is_flag": 40459, "der_plus_flag": 1128960, "compact_rt": 645120, "recover": 23040, "der_bad": 817824, "compact_bad": 145920},
 }
 FLAGS = [0x40, 0x01, 0x02, 0x03, 0x80, 0x41, 0x42, 0x43, 0xC1, 0xC2, 0xC3, 0x81, 0x82, 0x83]
 NONFLAGS = [0x00, 0x04, 0x05, 0x10, 0x3F, 0x44, 0x7F, 0x84, 0xC0, 0xC4, 0xFE, 0xFF, 0x30, 0x21]
@@ -253,6 +253,9 @@ def judge(ctx, case):
             "indefinite sequence length (30 80 .. 00 00)": b"\x30\x80" + good[2:] + b"\x00\x00",
             "r with an unnecessary leading zero": b"\x30" + bytes([good[1] + 1]) + b"\x02" + bytes([ri[1] + 1]) + b"\x00" + ri[2:] + si if not (ri[2] & 0x80) else b"",
             "s with an unnecessary leading zero": b"\x30" + bytes([good[1] + 1]) + ri + b"\x02" + bytes([si[1] + 1]) + b"\x00" + si[2:] if not (si[2] & 0x80) else b"",
+            "script push-length byte in front of the DER": bytes([len(good)]) + good,
+            "script push-length byte in front of DER || flag": bytes([len(good) + 1]) + good + bytes([rnd.choice(FLAGS)]),
+            "OP_PUSHDATA1 prefix in front of the DER": b"\x4c" + bytes([len(good)]) + good,
             "sequence followed by a zero byte": good + b"\x00",
             "leading zero byte before the sequence": b"\x00" + good,
         }
